@@ -92,35 +92,6 @@ Proof.
   split; [reflexivity|]. intros r _. reflexivity.
 Qed.
 
-(* ---- the passes ---- *)
-Theorem remove_redundant_ops_preserves_side ops : side_ok 3 ops = true ->
-  remove_redundant_ops ops = select (redundant_keep ops) ops /\
-  deletion_sim ops (redundant_keep ops) (K_of all_inv ops (redundant_keep ops)) (Inv_of all_inv (length ops)).
-Proof.
-  cbn [side_ok]. intros H. split; [apply remove_redundant_ops_select|]. apply delete_preserves. exact H.
-Qed.
-
-Theorem dce_preserves ops out : dce ops = POk out -> side_ok 4 ops = true ->
-  out = ops \/ exists keep, out = select keep ops /\
-    deletion_sim ops keep (K_of all_inv ops keep) (Inv_of all_inv (length ops)).
-Proof.
-  unfold dce. cbn [side_ok]. destruct (has_jmpaddr ops).
-  - intros H _. injection H as <-. left. reflexivity.
-  - destruct (dce_keep ops) as [keep|]; [|discriminate]. intros H Hs. injection H as <-.
-    right. exists keep. split; [reflexivity|]. apply delete_preserves. exact Hs.
-Qed.
-
-Theorem simplify_cfg_preserves ops out : simplify_cfg ops = POk out -> side_ok 5 ops = true ->
-  out = ops \/ exists keep, out = select keep ops /\
-    deletion_sim ops keep (K_of (cfg_inv ops) ops keep) (Inv_of (cfg_inv ops) (length ops)).
-Proof.
-  unfold simplify_cfg. cbn [side_ok]. destruct ops as [|o t]; [intros H _; injection H as <-; left; reflexivity|].
-  destruct (has_jmpaddr (o :: t)); [intros H _; injection H as <-; left; reflexivity|].
-  destruct (negb (jump_targets_known (o :: t))); [discriminate|].
-  destruct (cfg_keep (o :: t)) as [keep|]; [|discriminate]. intros H Hs. injection H as <-.
-  right. exists keep. split; [reflexivity|]. apply delete_preserves. exact Hs.
-Qed.
-
 (* ---- round driver ---- *)
 Lemma iter_shift {A} (g : A -> A) : forall k x, Nat.iter k g (g x) = g (Nat.iter k g x).
 Proof. induction k as [|k IH]; intros x; simpl; [reflexivity|]. rewrite IH. reflexivity. Qed.
